@@ -9,8 +9,8 @@ from sim import run_scenario
 from .base import Result, V
 from . import simcommon as SC
 
-MODULES = ['TickitModel.Props.C08', 'TickitModel.Props.C02', 'TickitModel.Props.C03Nested', 'TickitModel.Props.FlatInt']
-THEOREMS = ['tickRun_deterministic', 'schedule_independent', 'tick_deterministic', 'nested_schedule_independent', 'schedule_independentI']
+MODULES = ['TickitModel.Props.C08', 'TickitModel.Props.C02', 'TickitModel.Props.C03Nested', 'TickitModel.Props.FlatInt', 'TickitModel.Props.C03NestedInt']
+THEOREMS = ['tickRun_deterministic', 'schedule_independent', 'tick_deterministic', 'nested_schedule_independent', 'schedule_independentI', 'nested_schedule_independent_int']
 ANCHORS = ["src/tickit/core/management/ticker.py", "src/tickit/core/management/schedulers/base.py",
            "src/tickit/core/state_interfaces/state_interface.py", "src/tickit/core/state_interfaces/internal.py",
            "src/tickit/core/state_interfaces/kafka.py", "src/tickit/core/components/component.py"]
@@ -18,7 +18,7 @@ TECHNIQUE = "Lean 4 theorems (every answer order of every tick yields the same d
 LEVEL_TEXT = ("Theorems over the flat multi-tick model: two complete runs of one tick with any two answer orders give every component the same dispatch "
               "(strong induction on the acyclicity rank), and by induction over the tick sequence two runs of the same simulation have the same tick "
               "times and the same per-device (time, inputs) sequences, for deterministic devices; the same holds for histories WITH external stimuli applied between ticks (schedule_independentI: same script of ticks and stamped interrupts => same tick times, observations and wakeups, whatever the answer orders). For nested simulations the whole-simulation model (first-in first-out inside nested schedulers) is proved to have exactly the observations of "
-              "EVERY flat run over the resolved wiring, whatever its answer orders (nested_schedule_independent); arbitrary answer orders INSIDE nested schedulers "
+              "EVERY flat run over the resolved wiring, whatever its answer orders (nested_schedule_independent; with timely external stimuli: nested_schedule_independent_int); arbitrary answer orders INSIDE nested schedulers "
               "are covered per level by tick_deterministic and validated on the real code. Tie to the code: every generated simulation is run on the real classes under the "
               "synchronous bus and under a broker-like bus (per-topic FIFO, one pump per consumer) whose delivery order is enumerated exhaustively by "
               "DFS on small configurations (<= 5 components) and sampled on larger flat and nested ones; all per-device observation sequences must "
